@@ -1124,7 +1124,14 @@ class Exec:
                     o.env.setdefault(k, v)
                 for k, v in st.heap.items():         # storage allocated after entry
                     o.heap.setdefault(k, v)
-                return self.spec_ev(t.args[0], o)
+                res = self.spec_ev(t.args[0], o)
+                if isinstance(res, ARef) and res.sid in self.entry.heap and st.heap.get(res.sid) is not self.entry.heap[res.sid]:
+                    # an array that was written in place since entry: old(a) is a snapshot of its content at entry (a bare reference would be read
+                    # in the current state by the enclosing expression, e.g. old(a)[i])
+                    snap = self.new_sid("old")
+                    st.heap[snap] = self.entry.heap[res.sid]
+                    return ARef(snap)
+                return res
             if name == "ite":
                 c = truth(self.spec_ev(t.args[0], st))
                 a, b = coerce(self.spec_ev(t.args[1], st), self.spec_ev(t.args[2], st))
